@@ -2,6 +2,7 @@ package main
 
 import (
 	"bytes"
+	"errors"
 	"fmt"
 	"os"
 	"path/filepath"
@@ -439,6 +440,9 @@ func c10ParserTables(parserGen string, d *verifhook.ParserDump) (int, string) {
 	}
 	pt, err := decode.Parser(f, len(d.States))
 	if err != nil {
+		if errors.Is(err, decode.ErrLayout) {
+			return 0, "INCONCLUSIVE:" + err.Error()
+		}
 		return 0, err.Error()
 	}
 	if err := pt.CheckStructure(len(d.Terminals), len(d.Rules)); err != nil {
@@ -640,6 +644,10 @@ func checkC10(c *Ctx) error {
 			cells, why := c10ParserTables(gen["parser.gen.go"], fe.Parser)
 			c.Ev.Count("parser_cells_compared", cells)
 			c.Ev.Count("parser_states_decoded", len(fe.Parser.States))
+			if strings.HasPrefix(why, "INCONCLUSIVE:") {
+				c.Inconclusive("parser-table-variables-not-found")
+				continue
+			}
 			if why != "" {
 				c.Violation("parser-table-differs-from-automaton", pc.replay(why, nil, nil, nil))
 				continue
